@@ -17,12 +17,14 @@ pub fn run(rt: &tokio::runtime::Runtime, segments: &[Vec<u8>], split: Option<usi
         let addr = listener.local_addr().unwrap();
         let segs = segments.to_vec();
         let marker_v = marker.to_vec();
+        let early = std::sync::Arc::new(std::sync::atomic::AtomicBool::new(false));
+        let early_seen = early.clone();
         let peer = tokio::spawn(async move {
             let mut c = TcpStream::connect(addr).await.ok()?;
             c.set_nodelay(true).ok()?;
             let mut reply = vec![];
             for (i, sgm) in segs.iter().enumerate() {
-                if Some(i) == split {
+                if Some(i) == split && !early.load(std::sync::atomic::Ordering::SeqCst) {
                     // lock-step: wait for the method selection reply
                     let mut b = [0u8; 2];
                     if tokio::time::timeout(Duration::from_secs(3), c.read_exact(&mut b)).await.is_err() {
@@ -34,6 +36,19 @@ pub fn run(rt: &tokio::runtime::Runtime, segments: &[Vec<u8>], split: Option<usi
                     return Some(reply);
                 }
                 tokio::time::sleep(Duration::from_millis(12)).await;
+                // SOCKS5: nothing may be answered while the greeting is still incomplete (RFC 1928: the server selects
+                // a method from the *complete* list; an application that saw the selection would go on to its request)
+                if let Some(sp) = split {
+                    if i + 1 < sp {
+                        let mut b = [0u8; 2];
+                        if let Ok(Ok(n)) = tokio::time::timeout(Duration::from_millis(25), c.read(&mut b)).await {
+                            if n > 0 {
+                                early.store(true, std::sync::atomic::Ordering::SeqCst);
+                                reply.extend_from_slice(&b[..n]);
+                            }
+                        }
+                    }
+                }
             }
             // collect what the proxy answers within a short while, then send the marker and half-close
             let mut buf = [0u8; 4096];
@@ -72,6 +87,9 @@ pub fn run(rt: &tokio::runtime::Runtime, segments: &[Vec<u8>], split: Option<usi
             for b in &mut reply[6..12] {
                 *b = 0;
             }
+        }
+        if early_seen.load(std::sync::atomic::Ordering::SeqCst) {
+            return format!("early-answer reply={} rest=-", hex(&reply));
         }
         if outcome == "wait" {
             return "wait reply=- rest=-".to_owned();
